@@ -1138,6 +1138,7 @@ func genC06(c *Ctx) {
 	}
 	c06Directed(c, envs)
 	c06History(c, envs)
+	c06ScalarBoundary(c, envs)
 	c06Independence(c, envs)
 	c06RescaleChains(c, envs)
 	c06Malformed(c, envs)
@@ -1332,6 +1333,79 @@ func c06History(c *Ctx, envs []*c06Env) {
 			}
 			c.Count("history:" + e.tag)
 		}
+		// every order of two accumulator operations, starting from an accumulator of degree 1 and of degree 2
+		{
+			ls := e.logMax
+			a, b, x2, d := e.fresh(c, L, ls, ds), e.fresh(c, L, ls, ds), e.fresh(c, L, ls, ds), e.fresh(c, L, ls, ds)
+			ab, cd := c06MulVals(a.want, b.want), c06MulVals(x2.want, d.want)
+			names := []string{"MulThenAdd", "MulRelinThenAdd", "Mul", "MulRelin", "Relinearize"}
+			seqLen := c.Scale(2, 3)
+			total := 1
+			for i := 0; i < seqLen; i++ {
+				total *= len(names)
+			}
+			for startDeg := 1; startDeg <= 2; startDeg++ {
+				for code := 0; code < total; code++ {
+					var acc *rlwe.Ciphertext
+					var want []complex128
+					if startDeg == 1 {
+						r := e.fresh(c, L, ls, ds2)
+						acc, want = r.ct, r.want
+					} else {
+						p, err := e.eval.MulNew(a.ct, b.ct)
+						if err != nil {
+							panic(err)
+						}
+						acc, want = p, ab
+					}
+					seq := ""
+					cc := code
+					for st := 0; st < seqLen; st++ {
+						name := names[cc%len(names)]
+						cc /= len(names)
+						if name == "Relinearize" && acc.Degree() != 2 {
+							continue // documented error for degree != 2
+						}
+						seq += name + ">"
+						var err error
+						out := Try(func() string {
+							switch name {
+							case "MulThenAdd":
+								err = e.eval.MulThenAdd(x2.ct, d.ct, acc)
+							case "MulRelinThenAdd":
+								err = e.eval.MulRelinThenAdd(x2.ct, d.ct, acc)
+							case "Mul":
+								err = e.eval.Mul(a.ct, b.ct, acc)
+							case "MulRelin":
+								err = e.eval.MulRelin(a.ct, b.ct, acc)
+							case "Relinearize":
+								err = e.eval.Relinearize(acc, acc)
+							}
+							return ""
+						})
+						args := fmt.Sprintf("%s accumulator startDegree=%d seq=%s", e.tag, startDeg, seq)
+						if out == "panic" || err != nil {
+							c.Probe("program_precision", args, "C06/precision:history", "call failed")
+							break
+						}
+						switch name {
+						case "MulThenAdd", "MulRelinThenAdd":
+							want = c06AddVals(want, cd)
+						case "Mul", "MulRelin":
+							want = ab
+						}
+						e.probeVals(c, acc, want, e.tolFor(acc)*4, args, "C06/precision:history")
+					}
+				}
+			}
+		}
+		// MulRelinThenAdd / MulThenAdd into a degree-2 receiver: ties (the pending degree-2 term is kept)
+		for _, relin := range []bool{true, false} {
+			for _, bdeg := range []int{1, 0} {
+				op := &c06Op{kind: "mtaelt", alias: 'f', relin: relin, bIsPt: bdeg == 0}
+				e.tie(c, op, c06M{L, 1, e.logMax, ds}, c06M{L, bdeg, e.logMax, ds}, c06M{L, 2, e.logMax, ds2})
+			}
+		}
 		// ties on a transparent receiver with a history
 		for _, kind := range []string{"mtaelt", "mtasc"} {
 			lvl := L
@@ -1346,6 +1420,100 @@ func c06History(c *Ctx, envs []*c06Env) {
 				e.tie(c, op, c06M{lvl, 2, e.logMax, ds2}, c06M{}, om)
 			}
 			c.Count("tie-history:" + kind)
+		}
+	}
+}
+
+// c06ScalarBoundary: scalar operands of EVERY accepted Go type at the boundary values of that type, through
+// Add / Sub / Mul / MulThenAdd: exact tie of the RNS constants (the model rounds the exact value to the encoding
+// precision as bignum.ToComplex must) + decrypted value where the result fits Q_level.
+func c06ScalarBoundary(c *Ctx, envs []*c06Env) {
+	type sc struct {
+		kind string
+		v    interface{}
+		re   *big.Float
+		im   *big.Float
+	}
+	bi := func(s string) *big.Int { x, _ := new(big.Int).SetString(s, 10); return x }
+	exact := func(x *big.Int) *big.Float { return new(big.Float).SetPrec(uint(x.BitLen() + 2)).SetInt(x) }
+	zero := func() *big.Float { return new(big.Float) }
+	var list []sc
+	for _, u := range []uint64{0, 1, 1 << 31, 1 << 32, 1<<53 - 1, 1<<53 + 1, 1<<63 - 1, 1 << 63, 1<<64 - 1} {
+		x := new(big.Int).SetUint64(u)
+		list = append(list, sc{"uint64", u, exact(x), zero()}, sc{"uint", uint(u), exact(x), zero()},
+			sc{"bigint", new(big.Int).Set(x), exact(x), zero()})
+	}
+	for _, i := range []int64{0, 1, -1, 1 << 31, -(1 << 31), 1 << 32, 1<<53 - 1, 1<<53 + 1, -(1<<53 + 1), math.MaxInt64, math.MinInt64} {
+		x := big.NewInt(i)
+		list = append(list, sc{"int64", i, exact(x), zero()}, sc{"int", int(i), exact(x), zero()},
+			sc{"bigint", new(big.Int).Set(x), exact(x), zero()})
+	}
+	for _, f := range []float64{0, 1, -1, 1 << 31, 1 << 32, 1<<53 - 1, 1 << 53, -(1 << 63), 1 << 63, 18446744073709551616.0, 0.5, -0.75} {
+		b := new(big.Float).SetFloat64(f)
+		list = append(list, sc{"float64", f, b, zero()}, sc{"complex128", complex(f, -f), b, new(big.Float).SetFloat64(-f)},
+			sc{"bigfloat", new(big.Float).SetPrec(100).SetFloat64(f), b, zero()},
+			sc{"bigcomplex", &bignum.Complex{new(big.Float).SetPrec(100).SetFloat64(f), new(big.Float).SetPrec(100).SetFloat64(-f)}, b, new(big.Float).SetFloat64(-f)})
+	}
+	// beyond a float64 mantissa / a machine word, arbitrary precision types
+	for _, str := range []string{"18446744073709551617", "-18446744073709551615", "36893488147419103232"} {
+		x := bi(str)
+		list = append(list, sc{"bigint", x, exact(x), zero()}, sc{"bigfloat", new(big.Float).SetPrec(100).SetInt(x), exact(x), zero()})
+	}
+	for _, e := range envs {
+		ds := e.params.DefaultScale()
+		L := e.params.MaxLevel()
+		for _, s := range list {
+			if e.ci && s.im.Sign() != 0 {
+				continue
+			}
+			for _, kind := range []string{"addsc", "subsc", "mulsc", "mtasc"} {
+				op := &c06Op{kind: kind, alias: 'f', scalar: s.v, re: s.re, im: s.im, skind: s.kind}
+				if kind == "subsc" {
+					op.kind, op.sub = "addsc", true
+				}
+				rf, _ := s.re.Float64()
+				imf, _ := s.im.Float64()
+				op.cval = complex(rf, imf)
+				m := c06M{L, 1, e.logMax, ds}
+				e.tie(c, op, m, c06M{}, m)
+				// decrypted value
+				a := e.fresh(c, L, e.logMax, ds)
+				o := e.fresh(c, L, e.logMax, ds)
+				args := fmt.Sprintf("%s %s type=%s value=%s", e.tag, kind, s.kind, s.re.Text('g', 30))
+				d := Try(func() string {
+					res, err := e.exec(op, a.ct, nil, o.ct)
+					if err != nil {
+						return "error"
+					}
+					want := make([]complex128, len(a.want))
+					for i := range want {
+						switch kind {
+						case "addsc":
+							want[i] = a.want[i] + op.cval
+						case "subsc":
+							want[i] = a.want[i] - op.cval
+						case "mulsc":
+							want[i] = a.want[i] * op.cval
+						case "mtasc":
+							want[i] = o.want[i] + a.want[i]*op.cval
+						}
+					}
+					mw := c06MaxAbs(want)
+					if !e.fits(res, mw) {
+						c.Count("scalar-boundary-skipped-overflow")
+						return ""
+					}
+					tol := e.tolFor(res)*(1+cmplx.Abs(op.cval)) + mw*math.Exp2(-40)
+					have := e.decode(res)
+					for i := range have {
+						if x := cmplx.Abs(have[i] - want[i]); !(x <= tol) {
+							return fmt.Sprintf("slot=%d got %g want %g", i, have[i], want[i])
+						}
+					}
+					return ""
+				})
+				c.Probe("program_precision", args, "C06/precision:scalar-boundary", d)
+			}
 		}
 	}
 }
